@@ -101,6 +101,12 @@ func Skip(dAtA []byte) (n int, err error) {
 			}
 			iNdEx += length
 		case 3:
+			// protowire - and with it the reference decoder, proto.Equal and the text
+			// format - gives up on groups nested deeper than its recursion limit:
+			// such input must not end up among the unknown fields
+			if depth > protowire.DefaultRecursionLimit {
+				return 0, ErrRecursionDepth
+			}
 			groups = append(groups, fieldNum)
 			depth++
 		case 4:
